@@ -39,6 +39,16 @@ impl InferenceRule for MappingAccessRule {
             };
 
             let p = projection.unwrap_or(0);
+
+            // A projection whose bit offset cannot even be represented does not describe a member
+            // of the mapping's value, so there is nothing to infer from it
+            let Some(projection_bits) = p
+                .checked_mul(WORD_SIZE_BITS)
+                .filter(|bits| bits.checked_add(WORD_SIZE_BITS).is_some())
+            else {
+                return Ok(());
+            };
+
             let key_tv = state.var_unchecked(key);
             let original_val_ty = state.var_unchecked(value);
             let val_ty = unsafe { state.allocate_ty_var() };
@@ -47,7 +57,7 @@ impl InferenceRule for MappingAccessRule {
                 val_ty,
                 TE::packed_of(vec![Span::new(
                     original_val_ty,
-                    p * WORD_SIZE_BITS,
+                    projection_bits,
                     WORD_SIZE_BITS,
                 )]),
             );
